@@ -349,6 +349,49 @@ func c11Transitions(c *Ctx) *RuleResult {
 					okG = true
 				}
 			}
+			if !okG {
+				// `count = 0` (the last suspension being dropped) dominates the write in the same block
+				g := NewFuncCFG(info, u.Decl.Body)
+				for _, zw := range FieldWrites([]*FuncUnit{u}, sc, false) {
+					if zw.RHS == nil {
+						continue
+					}
+					if tv, ok := info.Types[zw.RHS]; ok && tv.Value != nil && tv.Value.ExactString() == "0" && g.Dominates(zw.Node, w.Node) && sameInnermostBlock(u.Decl.Body, zw.Node, w.Node) {
+						okG = true
+					}
+				}
+			}
+			if !okG && w.RHS != nil {
+				// the new value comes from a getter that only adds the time since the last resumption
+				// while the clock is running: every read of unsuspensionStart in it is under count == 0
+				if call, ok := ast.Unparen(w.RHS).(*ast.CallExpr); ok {
+					if hu := p.UnitOf(calleeOf(info, call)); hu != nil && hu.Fn.Pkg() == u.Fn.Pkg() {
+						us := p.LookupField("pkg/clock", "SuspendableClock", "unsuspensionStart")
+						reads, allGuarded := 0, true
+						ast.Inspect(hu.Decl.Body, func(n ast.Node) bool {
+							sel, ok := n.(*ast.SelectorExpr)
+							if !ok || fieldOf(hu.Info(), sel) != us {
+								return true
+							}
+							reads++
+							gd := false
+							for _, g := range flattenGuards(GuardsOf(hu.Info(), hu.Decl.Body, sel)) {
+								be, ok := ast.Unparen(g.Cond).(*ast.BinaryExpr)
+								if ok && g.Pos && be.Op == token.EQL && fieldOf(hu.Info(), be.X) == sc && exprStr(be.Y) == "0" {
+									gd = true
+								}
+							}
+							if !gd {
+								allGuarded = false
+							}
+							return true
+						})
+						if reads > 0 && allGuarded && fname == "totalUnsuspended" {
+							okG = true
+						}
+					}
+				}
+			}
 			if okG {
 				r.ok(construct, posOf(p, w.Node), "only on a running<->suspended transition")
 			} else {
@@ -454,4 +497,21 @@ func freshMkdir(c *Ctx) *RuleResult {
 		})
 	}
 	return r
+}
+
+// sameInnermostBlock: a and b are statements of the same statement list (block or case clause).
+func sameInnermostBlock(body *ast.BlockStmt, a, b ast.Node) bool {
+	holder := func(n ast.Node) ast.Node {
+		var h ast.Node
+		for _, anc := range pathTo(body, n) {
+			switch anc.(type) {
+			case *ast.BlockStmt, *ast.CaseClause, *ast.CommClause:
+				if anc != n {
+					h = anc
+				}
+			}
+		}
+		return h
+	}
+	return holder(a) != nil && holder(a) == holder(b)
 }
